@@ -4,6 +4,7 @@ import sys, os
 sys.path.insert(0, os.path.dirname(os.path.abspath(__file__)))
 from common import *
 from wesym.contracts import seqchan
+from wesym import bmc
 
 
 def main():
@@ -21,6 +22,16 @@ def main():
         jobs.append(Job(P + 'VerifC15SimpleSeq', (n,)))
     jobs.append(Job(P + 'VerifC15Witness', (), witness=True))
     res = chk.run_jobs(jobs)
+    # concurrent part: schedule-symbolic BMC of the real Add / WaitForItem (container/list by FIFO contract)
+    chk2 = Check('C15', [MOD + '/internal/queue'], 'internal/queue', ['C15/zz_verif_c15.go', 'C15/zz_verif_c15_conc.go'],
+                 installers=[seqchan.install, bmc.install], prelude_pkgname='queue')
+    chk2.load([P + 'VerifC15Concurrent'])
+    cj = []
+    conc = [(1, 1, 0), (1, 2, 0), (2, 1, 0), (1, 1, 1)] if t == 'quick' else [(1, 1, 0), (1, 2, 0), (1, 3, 0), (2, 1, 0), (1, 1, 1), (1, 2, 1), (2, 1, 1)]
+    for (pr, per, cn) in conc:
+        cj.append(Job(P + 'VerifC15Concurrent', (pr, per, cn), cfg={'unwind': per * pr + 2 + cn, 'timeout_ms': 120000}, max_paths=200000))
+    res += chk2.run_jobs(cj)
+    chk2.cleanup()
     finish(chk, res, t,
            explanation='Bounded symbolic execution of PriorityQueue (with the real container/heap) and SimpleQueue (with the real '
                        'container/list) instantiated at a harness item type: counters are free 64-bit values, so every relative '
